@@ -356,6 +356,45 @@ def check_enum(case):
     return dict(nontrivial=bool(pos) and bool(neg), labels=["enum"])
 
 
+def _narrow_cases(tier):
+    for dt in ("int8", "uint8", "int16", "uint16", "int32", "uint32"):
+        for ep, en in ((0, 0), (3, 5)):
+            for thr_as in ("float", "int64", "scalar"):
+                yield dict(dt=dt, ep=ep, en=en, thr_as=thr_as)
+
+
+def check_narrow(case):
+    """Scores in a narrow integer dtype that include both ends of the dtype's range, thresholds (held as
+    floats or 64-bit integers) at, next to and far beyond those ends (round 10, c01-s)."""
+    from score_analysis import Scores
+
+    dt, ep, en = np.dtype(case["dt"]), case["ep"], case["en"]
+    lo, hi = int(np.iinfo(dt).min), int(np.iinfo(dt).max)
+    mid = (lo + hi) // 2
+    pos = [hi, hi, mid, lo, hi - 1]
+    neg = [lo, lo + 1, mid, hi, mid + 1]
+    if case["thr_as"] == "int64":
+        flat = [lo - 1, lo, lo + 1, mid, hi - 1, hi, hi + 1, hi + 1000, lo - 1000, 2**40, -(2**40)]
+        thr = np.asarray(flat, dtype=np.int64)
+    else:
+        flat = [lo - 1.0, lo - 0.5, float(lo), lo + 0.5, mid + 0.5, hi - 0.5, float(hi), hi + 0.5, hi + 1.0,
+                1e9 * 7, -1e9 * 7, 1e300, -1e300, math.inf, -math.inf]
+        thr = np.asarray(flat, dtype=float)
+    for sc, ec in CONFIGS:
+        obj = Scores(np.asarray(pos, dtype=dt), np.asarray(neg, dtype=dt), nb_easy_pos=ep, nb_easy_neg=en,
+                     score_class=sc, equal_class=ec)
+        if case["thr_as"] == "scalar":
+            got = [obj.cm(t).matrix for t in flat]
+        else:
+            got = obj.cm(thr).matrix
+        for i, t in enumerate(flat):
+            ref = ref_cm(pos, neg, t, sc, ec, ep, en)
+            g = tuple(int(x) for x in np.asarray(got[i]).reshape(-1))
+            require(g == ref, "cm:count", lambda: f"{dt} scores pos={pos} neg={neg} config={sc}/{ec} easy=({ep},{en}) "
+                                                  f"t={t!r} ({case['thr_as']}) got tp,fn,fp,tn={g} expected {ref}")
+    return dict(nontrivial=True, labels=[f"dtype:{dt}", f"thr:{case['thr_as']}"])
+
+
 PROP = Prop(
     id="C01",
     rule=("Hypothesis-generated score sets (value modes grid/dyadic/float up to 1e300/"
@@ -376,6 +415,8 @@ PROP = Prop(
                min_nontrivial=50, doc="int64/uint64 scores beyond 2^53 with integer thresholds"),
         Clause("pointwise_large", check_pw_large, kind="enum", cases=_pw_large_cases, quick_shards=3, shards=8,
                min_nontrivial=3, doc="pointwise_cm calls with 1.68e7 (score, threshold) pairs"),
+        Clause("narrow_ends", check_narrow, kind="enum", cases=_narrow_cases, quick_shards=4, shards=4,
+               min_nontrivial=30, doc="narrow-integer scores at both ends of the dtype, thresholds at / beyond the ends"),
         Clause("enum_small", check_enum, kind="enum", cases=_enum_cases, shards=16,
                quick_shards=2, min_nontrivial=10,
                doc="all order types of small score sets (exhaustive)"),
@@ -384,4 +425,4 @@ PROP = Prop(
                  "pointwise_cm with size-0 threshold axes is exercised under C10"],
 )
 
-RULE_EXTRA = ('int64 / uint64 scores of magnitude 2^53..2^63 one unit apart with integer thresholds (array and Python int); pointwise_cm on 2-D label / score arrays of differing memory layout; score containers float64 / float32 / float16 / Python lists / one class int or float32 next to a float64 class / uint8-uint16-bool quantised scores; easy counts up to 2^40; thresholds as nested lists, Fortran-ordered arrays and float32/float16 arrays. Score arrays in non-native byte order; missing labels (None / NaN); clause pointwise_large (1.7e7 label-prediction pairs).')
+RULE_EXTRA = ('clause narrow_ends: int8..uint32 scores holding both ends of the dtype against float / int64 thresholds at, half a unit from and far beyond the ends (incl. +-inf); int64 / uint64 scores of magnitude 2^53..2^63 one unit apart with integer thresholds (array and Python int); pointwise_cm on 2-D label / score arrays of differing memory layout; score containers float64 / float32 / float16 / Python lists / one class int or float32 next to a float64 class / uint8-uint16-bool quantised scores; easy counts up to 2^40; thresholds as nested lists, Fortran-ordered arrays and float32/float16 arrays. Score arrays in non-native byte order; missing labels (None / NaN); clause pointwise_large (1.7e7 label-prediction pairs).')
